@@ -441,8 +441,8 @@ class Lexer:
                     "unclosed string literal",
                     token=ErrorToken(
                         type_=TokenType.ERROR,
-                        index=self.start,
-                        value=self.source[self.start],
+                        index=self._in_source(self.start),
+                        value=self.source[self.start : self.start + 1],
                         markup_start=self.markup_start,
                         markup_stop=self.pos,
                         source=self.source,
@@ -579,8 +579,8 @@ class Lexer:
                     "unclosed string or template string expression",
                     token=ErrorToken(
                         type_=TokenType.ERROR,
-                        index=self.start,
-                        value=self.source[self.start],
+                        index=self._in_source(self.start),
+                        value=self.source[self.start : self.start + 1],
                         markup_start=self.markup_start,
                         markup_stop=self.pos,
                         source=self.source,
@@ -591,6 +591,9 @@ class Lexer:
     def accept_range(self) -> None:
         rparen = self.expression.pop()
         assert is_token_type(rparen, TokenType.RPAREN)
+
+        if len(self.expression) < 3:
+            self.raise_for_token("malformed range expression", rparen)
 
         range_stop_token = self.expression.pop()
         if range_stop_token.type_ not in (
@@ -771,13 +774,17 @@ class Lexer:
             return whitespace
         return ""
 
+    def _in_source(self, index: int) -> int:
+        """Return _index_ clamped to the last character of the source text."""
+        return max(0, min(index, len(self.source) - 1))
+
     def error(self, msg: str) -> Never:
         """Emit an error token."""
         raise LiquidSyntaxError(
             msg,
             token=ErrorToken(
                 type_=TokenType.ERROR,
-                index=self.pos,
+                index=self._in_source(self.pos),
                 value=self.source[self.start : self.pos],
                 markup_start=self.markup_start,
                 markup_stop=self.pos,
